@@ -46,6 +46,9 @@ type Route struct {
 	group *Group // Group instance. used for routes in groups
 
 	path string // Prettified path
+	// Path as handed to register, before "" becomes "/" and the leading slash is added. A mounted
+	// app's routes are prefixed from it, so that an empty path stays the prefix itself as in a group.
+	pathOrig string
 
 	// Public fields
 	Method string `json:"method"` // HTTP method
@@ -273,7 +276,16 @@ func (app *App) customRequestHandler(rctx *fasthttp.RequestCtx) {
 }
 
 func (app *App) addPrefixToRoute(prefix string, route *Route) *Route {
-	prefixedPath := getGroupPath(prefix, route.Path)
+	// Prefix the path as it was registered: like Group, an empty path yields the prefix itself
+	// (not prefix + "/"), then normalise the result the way register does.
+	prefixedOrig := getGroupPath(prefix, route.pathOrig)
+	prefixedPath := prefixedOrig
+	if prefixedPath == "" {
+		prefixedPath = "/"
+	}
+	if prefixedPath[0] != '/' {
+		prefixedPath = "/" + prefixedPath
+	}
 	prettyPath := prefixedPath
 	// Case-sensitive routing, all to lowercase
 	if !app.config.CaseSensitive {
@@ -285,6 +297,7 @@ func (app *App) addPrefixToRoute(prefix string, route *Route) *Route {
 	}
 
 	route.Path = prefixedPath
+	route.pathOrig = prefixedOrig
 	route.path = RemoveEscapeChar(prettyPath)
 	route.routeParser = parseRoute(prettyPath, app.customConstraints...)
 	// The prefix may contain parameters of its own: recompute the parameter keys from the
@@ -308,6 +321,7 @@ func (*App) copyRoute(route *Route) *Route {
 
 		// Path data
 		path:        route.path,
+		pathOrig:    route.pathOrig,
 		routeParser: route.routeParser,
 
 		// misc
@@ -334,6 +348,7 @@ func (app *App) register(methods []string, pathRaw string, group *Group, handler
 		}
 	}
 
+	pathOrig := pathRaw
 	// Precompute path normalization ONCE
 	if pathRaw == "" {
 		pathRaw = "/"
@@ -373,6 +388,7 @@ func (app *App) register(methods []string, pathRaw string, group *Group, handler
 			root:  isRoot,
 
 			path:        pathClean,
+			pathOrig:    pathOrig,
 			routeParser: parsedPretty,
 			Params:      parsedRaw.params,
 			group:       group,
@@ -415,7 +431,9 @@ func (app *App) addRoute(method string, route *Route, isMounted ...bool) {
 
 	// prevent identically route registration
 	l := len(app.stack[m])
-	if l > 0 && app.stack[m][l-1].Path == route.Path && route.use == app.stack[m][l-1].use && !route.mount && !app.stack[m][l-1].mount {
+	// "" and "/" are the same route here but not once the app is mounted under a prefix: keep them apart
+	if l > 0 && app.stack[m][l-1].Path == route.Path && (app.stack[m][l-1].pathOrig == "") == (route.pathOrig == "") &&
+		route.use == app.stack[m][l-1].use && !route.mount && !app.stack[m][l-1].mount {
 		preRoute := app.stack[m][l-1]
 		preRoute.Handlers = append(preRoute.Handlers, route.Handlers...)
 	} else {
